@@ -51,6 +51,11 @@ FIXED = {
  "HASHHF zero-initialises its text buffer": (["C07", "C08"], "HASHHF images contained one never-written byte of textStrings (two builds of the same input differed)"),
  "HASHHF constructor reserves room for the three bytes": (["C07"], "HASHHF constructor wrote/saved up to three bytes past textStrings when the last string ended at the capacity boundary"),
  "the worker pool changes the queue and the stop flags under the mutex": (["C09", "C10"], "WorkerPool lost wake-up: add_task / stop_all_workers changed state and notified without the mutex the workers wait on; a worker preempted between its predicate check and blocking slept forever and wait_workers never returned (e.g. 1 worker, 9 tasks, the stop issued by a task)"),
+ "LogSequence::set_field clears the old value of a 64-bit field": (["C17"], "LogSequence with 64-bit fields ORed a new value into the old one (shift by the word width)"),
+ "BitSequenceDArray sizes its in-superblock rank table": (["C19", "C07"], "BitSequenceDArray::build wrote past its rank table on every bit vector"),
+ "the SDArray low-bits array has the extra word": (["C19", "C07"], "BitSequenceSDArray over-read its low-bits array on all-ones vectors"),
+ "WaveletTreeNoptrs::rank answers for a sequence whose only symbol is 0": (["C19"], "WaveletTreeNoptrs::rank returned 0 for every position of a sequence consisting only of symbol 0"),
+ "WaveletTreeNoptrs::select answers for a sequence whose only symbol is 0": (["C19"], "WaveletTreeNoptrs::select failed an assertion (indexing level -1) on a sequence consisting only of symbol 0"),
  "the chunk decoders do not take a zero byte": (["C01", "C04", "C07", "C18"], "HTFC/HHTFC: strings sharing a prefix of 128, 256, ... bytes with their predecessor undecodable (VByte zero byte taken for the terminator)"),
  "a decoding-table entry never describes more than the 15 symbols": (["C01", "C07", "C18"], "HASHHF/HASHUFFDAC/HHTFC: 16 consecutive one-bit codewords overflowed the 4-bit length of a table entry (e.g. one string of 700 x's)"),
  "FMINDEX maps the sampled position that follows the text": (["C07"], "FMINDEX construction read past the separators bitmap when the text length is a multiple of the sampling step and of 15"),
